@@ -4,6 +4,8 @@
 package chain
 
 import (
+	"math/rand"
+	"bytes"
 	"encoding/hex"
 	"encoding/json"
 	"fmt"
@@ -135,6 +137,36 @@ type Chain struct {
 	Dead     bool
 	LastHash []byte
 	rec      int // 1 + index into Rec.Chains, 0 = not recorded
+	db       dbm.DB
+}
+
+// Node-restart injection. When RestartProb > 0 every Commit of every chain is followed, with that probability, by a
+// node restart: the application instance is dropped and a new one is opened on the same database (same home directory),
+// the way a validator process is stopped and started between two blocks. Only committed state survives; whatever a
+// keeper held in process memory is gone. For correct code this is unobservable. The framework switches it on for a
+// fixed subset of the cases of every property (framework.go).
+var (
+	RestartProb float64
+	RestartRng  *rand.Rand
+	Restarts    int
+)
+
+func (c *Chain) restart() (err error) {
+	defer func() {
+		if r := recover(); r != nil {
+			err = fmt.Errorf("opening a new application instance on the committed database panicked: %v", r)
+		}
+	}()
+	enc := app.MakeEncodingConfig()
+	a := app.NewJackalApp(log.NewNopLogger(), c.db, nil, true, map[int64]bool{}, c.home, 0,
+		enc, wasm.EnableAllProposals, app.EmptyBaseAppOptions{}, nil)
+	if got := a.LastCommitID().Hash; !bytes.Equal(got, c.LastHash) {
+		return fmt.Errorf("restarted instance reports last commit %x, the stopped one committed %x", got, c.LastHash)
+	}
+	c.App = a
+	c.Enc = enc.Marshaler
+	Restarts++
+	return nil
 }
 
 type PanicError struct {
@@ -168,9 +200,10 @@ func New(cfg Config) (*Chain, error) {
 		return nil, err
 	}
 	enc := app.MakeEncodingConfig()
-	a := app.NewJackalApp(log.NewNopLogger(), dbm.NewMemDB(), nil, true, map[int64]bool{}, home, 0,
+	db := dbm.NewMemDB()
+	a := app.NewJackalApp(log.NewNopLogger(), db, nil, true, map[int64]bool{}, home, 0,
 		enc, wasm.EnableAllProposals, app.EmptyBaseAppOptions{}, nil)
-	c := &Chain{App: a, Enc: enc.Marshaler, Cfg: cfg, home: home, Time: cfg.GenesisTime}
+	c := &Chain{App: a, Enc: enc.Marshaler, Cfg: cfg, home: home, Time: cfg.GenesisTime, db: db}
 
 	for i := 0; i < cfg.NAcc; i++ {
 		p := DeriveKey(cfg.Seed, i)
@@ -382,6 +415,12 @@ func (c *Chain) Commit() (hash []byte, perr error) {
 	c.LastHash = res.Data
 	if Rec != nil && c.rec > 0 {
 		Rec.add(c.rec-1, TraceOp{Op: "commit", Height: c.Height, Digest: hex.EncodeToString(res.Data)})
+	}
+	if RestartProb > 0 && RestartRng != nil && c.db != nil && RestartRng.Float64() < RestartProb {
+		if err := c.restart(); err != nil {
+			c.Dead = true
+			return res.Data, &PanicError{Where: fmt.Sprintf("node restart after Commit(h=%d)", c.Height), Value: err.Error()}
+		}
 	}
 	return res.Data, nil
 }
